@@ -3,6 +3,7 @@ import json, os, re, sys, time, random, shutil
 import engine
 from engine import log, VERIF
 import matcher_props
+import nucleo_props
 
 PROP_RE = re.compile(r"^(C\d\d)\b")
 
@@ -24,8 +25,9 @@ def relevant(pid, desc, safety_owner):
 class KaniProp:
     def __init__(self, package, instances_fn, safety_owner, shims=("memchr",), small=True,
                  functions=(), assumptions=(), outside=(), extra_args=(), quick_cap_s=1500,
-                 thorough_cap_s=3 * 3600, mem_cap_gb=12, test_path="verif::replay::run", selftest=False):
+                 thorough_cap_s=3 * 3600, mem_cap_gb=12, test_path="verif::replay::run", selftest=False, gen_mod=None):
         self.selftest = selftest
+        self.gen_mod = gen_mod or matcher_props
         self.package = package
         self.instances_fn = instances_fn
         self.safety_owner = safety_owner
@@ -42,7 +44,7 @@ class KaniProp:
 
     def run(self, pid, tier, seed, args):
         t0 = time.time()
-        all_insts = matcher_props.all_instances(tier) if self.package == "nucleo-matcher" else self.instances_fn(tier, all_=True)
+        all_insts = self.gen_mod.all_instances(tier)
         mine = [i for i in self.instances_fn(tier) if pid in i.props]
         if args.only:
             mine = [i for i in mine if re.search(args.only, i.name)]
@@ -58,7 +60,7 @@ class KaniProp:
             sc.close()
 
     def _run(self, pid, tier, seed, args, sc, all_insts, mine, t0):
-        self.gen_meta = matcher_props.write_gen(sc, tier)
+        self.gen_meta = self.gen_mod.write_gen(sc, tier)
         self.oracle_ok = 0
         if self.selftest:
             n = engine.oracle_selftest(sc, self.package, small=self.small)
@@ -73,8 +75,11 @@ class KaniProp:
         names = [i.name for i in mine]
         log("[%s] %d harness instances, -j %d, cap %ds" % (pid, len(names), jobs, cap))
         try:
+            pre = None
+            if self.gen_mod is nucleo_props:
+                pre = lambda sm: nucleo_props.write_gen(sc, tier, small=sm)
             results, wall, logp = engine.run_kani(sc, self.package, mine, jobs, cap, small=self.small,
-                                                  extra_args=self.extra_args, mem_cap_gb=self.mem_cap_gb)
+                                                  extra_args=self.extra_args, mem_cap_gb=self.mem_cap_gb, pre_codegen=pre)
         except engine.BuildError as e:
             print("BUILD-ERROR (inconclusive):\n%s" % e)
             self._evidence(pid, tier, seed, mine, {}, t0, 0, [], ["build error"])
@@ -153,7 +158,9 @@ class KaniProp:
             ok_profiles = []
             descs = []
             for profile in ("dev", "release"):
-                res, out = engine.native_replay(sc, self.package, inst.name, tape, profile, small=self.small,
+                if self.gen_mod is nucleo_props:
+                    nucleo_props.write_gen(sc, "quick", extra=[inst], small=getattr(inst, "small", self.small))
+                res, out = engine.native_replay(sc, self.package, inst.name, tape, profile, small=getattr(inst, "small", self.small),
                                                 test_path=self.test_path)
                 failed = re.findall(r"REPLAY-CHECK-FAILED (.*)", out)
                 relf = [d for d in failed if relevant(pid, d, self.safety_owner)]
@@ -168,7 +175,7 @@ class KaniProp:
                 path = VERIF + "/replays/%s.%s.json" % (pid, inst.name)
                 with open(path, "w") as f:
                     json.dump({"property": pid, "harness": inst.name, "expr": inst.expr, "unwind": inst.unwind,
-                               "family": inst.family, "package": self.package, "tape": tape,
+                               "family": inst.family, "package": self.package, "tape": tape, "small": getattr(inst, "small", self.small),
                                "failed_checks": descs, "profiles_reproduced": ok_profiles,
                                "bounds": inst.bounds}, f, indent=1)
                 return ("violation", path, descs[0])
@@ -181,12 +188,17 @@ class KaniProp:
         try:
             extra = []
             if rec.get("family"):
-                extra.append(matcher_props.Inst(rec["harness"], rec["unwind"], rec["expr"], [rec["property"]], rec.get("bounds", {}), rec["family"]))
-            matcher_props.write_gen(sc, "quick", extra)
+                e = matcher_props.Inst(rec["harness"], rec["unwind"], rec["expr"], [rec["property"]], rec.get("bounds", {}), rec["family"])
+                e.small = rec.get("small", self.small)
+                extra.append(e)
+            if self.gen_mod is nucleo_props:
+                nucleo_props.write_gen(sc, "quick", extra, small=rec.get("small", self.small))
+            else:
+                matcher_props.write_gen(sc, "quick", extra)
             bad = False
             for profile in ("dev", "release"):
                 res, out = engine.native_replay(sc, rec["package"], rec["harness"], rec["tape"], profile,
-                                                small=self.small, test_path=self.test_path)
+                                                small=rec.get("small", self.small), test_path=self.test_path)
                 print("replay %s: %s" % (profile, res))
                 for d in re.findall(r"REPLAY-CHECK-FAILED (.*)", out):
                     print("   failed: " + d)
@@ -334,7 +346,35 @@ class Multi:
         return self.parts[0].replay(path)
 
 
+pattern = KaniProp("nucleo-matcher", matcher_props.pattern_instances, "C14",
+                   functions=["Atom::parse", "Atom::new", "Atom::new_inner", "pattern_atoms", "Pattern::parse", "Pattern::new", "Pattern::reparse", "Atom::score (flag hand-over)"],
+                   assumptions=["reference parser written from the grammar of the statement and the AtomKind documentation",
+                                "the private flags ignore_case / normalize are observed through their documented effect on Matcher::config"],
+                   outside=["pattern strings longer than the per-tier bound"])
+
+NUCLEO_SHIMS = ("memchr", "rayon", "parking_lot")
+NUCLEO_ASSUME = [
+    "rayon is replaced by /verif/shims/rayon: one thread, join / parallel-iterator chunks run in a solver-chosen order (contract: every closure runs exactly once on disjoint data; indexed results keep index order)",
+    "parking_lot is replaced by /verif/shims/parking_lot (mutual exclusion only; contention resolved by harness hooks)",
+    "memchr is replaced by /verif/shims/memchr",
+    "Kani models panic=abort, no unwinding; no threads: interleavings of atomics are outside these harnesses",
+]
+sort = KaniProp("nucleo", nucleo_props.sort_instances, "C18", shims=NUCLEO_SHIMS, gen_mod=nucleo_props,
+                functions=["par_sort::par_quicksort", "par_sort::recurse", "par_sort::{insertion_sort, shift_head, shift_tail, partial_insertion_sort, heapsort, partition, partition_in_blocks, partition_equal, choose_pivot, break_patterns}"],
+                assumptions=NUCLEO_ASSUME + ["tuning constants shrunk under --cfg nucleo_verif_small for the composite harnesses marked 'shrunk' (MAX_INSERTION 3, MAX_SEQUENTIAL 6, BLOCK 4, SHORTEST_SHIFTING 6, SHORTEST_MEDIAN_OF_MEDIANS 6); units and short composites use the real constants"],
+                outside=["slices longer than the per-tier bound (the property speaks of hundreds of thousands)", "the real BLOCK = 128 main loop (needs > 256 elements)",
+                         "'same order for every thread count' is only covered as: the result is sorted under the comparator for every join order"])
+boxcar = KaniProp("nucleo", nucleo_props.boxcar_instances, "C08", shims=NUCLEO_SHIMS, gen_mod=nucleo_props,
+                  functions=["boxcar::Location::of", "boxcar::Location::bucket_len", "boxcar::Vec::{with_capacity, push, extend, get, count, get_or_alloc, drop}", "boxcar::Bucket::{alloc, dealloc, get}", "boxcar::Entry::{layout, read, matcher_cols_raw, matcher_cols_mut}"],
+                  assumptions=NUCLEO_ASSUME + ["bucket geometry shrunk under --cfg nucleo_verif_small (SKIP 2, eager capacity clamp 2) for the history harnesses; Location::of is checked for every u32 with the real SKIP = 32 as well"],
+                  outside=["interleavings of concurrent push/extend/get (Kani has no threads; CBMC's thread encoding rejects Rust-generated pointer code) - sequential histories only",
+                           "fill callbacks that panic (panic=abort under Kani)", "histories longer than the per-tier bound"])
+
 PROPS = {
+    "C18": sort,
+    "C08": boxcar,
+    "C11": boxcar,
+    "C14": pattern,
     "C05": exact,
     "C16": chars,
     "C01": both,
